@@ -453,7 +453,7 @@ pub fn manyrecs(ctx: &Ctx) -> Stats {
 /// bin-size times: no window may fall into bin 0, so a single k-mer that goes missing while the table is written,
 /// merged or loaded (by any number of workers) shows up as a non-zero first column
 pub fn bigtable(ctx: &Ctx) -> Stats {
-    let n = ctx.n(4, 30);
+    let n = ctx.n(4, 12);
     let mut st = Stats::new();
     for idx in 0..n {
         if ctx.expired() {
